@@ -54,11 +54,12 @@ struct Options {
   std::map<size_t, uint64_t> fixed; size_t fixedSeen = 0; std::map<uint64_t, uint64_t> fixedVals;
   std::string shadowFile, traceOut, shadowInputs;
   bool noGC = false;
+  bool reuse = false;              // --reuse-addresses: freed heap addresses are handed out again (LIFO per size class, like glibc tcache)
   double slow = 1e9; unsigned solverTimeoutMs = 20000;
 } opt;
 
 struct Stats {
-  uint64_t maxPath = 0, instrs = 0, forks = 0, merges = 0, deadPaths = 0, checksConst = 0, checksSolver = 0, calls = 0, maxDepth = 0;
+  uint64_t reusedAddrs = 0, maxPath = 0, instrs = 0, forks = 0, merges = 0, deadPaths = 0, checksConst = 0, checksSolver = 0, calls = 0, maxDepth = 0;
   uint64_t feasPure = 0; uint64_t allocs = 0, objMerges = 0, taintChecks = 0, loads = 0, stores = 0, infeasiblePruned = 0, midForks = 0;
   std::set<std::string> functions;
   std::map<std::string, uint64_t> checkKinds;
@@ -94,8 +95,12 @@ template <class T> struct Registered {
   Registered& operator=(const Registered&) { return *this; } Registered& operator=(Registered&&) { return *this; }
   ~Registered() { unlink(); }
 };
+// free lists of the heap model with address reuse: persistent LIFO lists per size class (shared tails between states)
+struct FLNode { uint64_t addr; std::shared_ptr<const FLNode> next; };
+typedef std::map<uint64_t, std::shared_ptr<const FLNode>> FreeLists;
 struct State : Registered<State> {
   Node* pc = nullptr; PMap mem; bool allowThrow = false; uint64_t steps = 0;   // steps: instructions executed along the longest path this state stands for
+  std::shared_ptr<const FreeLists> fl;   // only with --reuse-addresses
 };
 struct Frame : Registered<Frame> {
   FuncInfo* fi = nullptr; std::vector<vs::Value> regs; std::vector<uint32_t> allocas;
@@ -112,7 +117,8 @@ static std::unique_ptr<Module> M;
 static const DataLayout* DL;
 static DenseMap<const Function*, FuncInfo*> finfo;
 static DenseMap<const GlobalValue*, uint32_t> globalObj;
-static std::map<uint64_t, uint32_t> addrMap;       // base address -> object id (never reused)
+static std::map<uint64_t, std::vector<uint32_t>> addrMap;   // base address -> object ids that were placed there (one, unless --reuse-addresses)
+static const State* g_curState = nullptr;          // state of the instruction being executed (to pick the live object at a reused address)
 static std::vector<uint64_t> objBase, objSize;     // by id (for address resolution even after erase)
 static uint32_t nextObj = 1; static uint64_t nextAddr = 0x100000;
 static std::vector<uint64_t> inputs; static size_t inputPos = 0;
@@ -177,10 +183,29 @@ static Node* ptrToInt(const PtrVal* p) {
   for (int i = (int)p->alts.size() - 2; i >= 0; --i) acc = tm.mkIte(p->alts[i].g, altAddr(p->alts[i]), acc);
   return acc;
 }
+static bool liveIn(const State* s, uint32_t id);
 static void resolveAddr(uint64_t addr, uint32_t& obj, uint64_t& off) {
   obj = 0; off = addr;
   auto it = addrMap.upper_bound(addr); if (it == addrMap.begin()) return; --it;
-  uint32_t id = it->second; if (addr <= it->first + objSize[id]) { obj = id; off = addr - it->first; }
+  const std::vector<uint32_t>& ids = it->second; uint32_t id = ids.back();
+  if (ids.size() > 1 && getenv("VS_DBG_REUSE")) std::cerr << "DBG resolveAddr multi base=" << it->first << " n=" << ids.size() << " at " << locOf(curInst) << "\n";
+  if (ids.size() > 1 && g_curState) { for (size_t i = ids.size(); i-- > 0;) if (liveIn(g_curState, ids[i])) { id = ids[i]; break; } }   // the newest object at this address that is live in the current state
+  if (addr <= it->first + objSize[id]) { obj = id; off = addr - it->first; }
+}
+static void addAlt(std::vector<PtrAlt>& v, Node* g, uint32_t obj, Node* off);
+// alternatives for an integer address under guard g.  With reused addresses several objects were placed at the same base:
+// the occupant is the newest one that was allocated on the path (born) and has not been released there.
+static void resolveAddrAlts(const State* s, Node* g, uint64_t addr, std::vector<PtrAlt>& v) {
+  auto it = addrMap.upper_bound(addr);
+  if (it != addrMap.begin() && s) { --it; const std::vector<uint32_t>& ids = it->second;
+    if (ids.size() > 1) { Node* rest = g;
+      for (size_t i = ids.size(); i-- > 0 && !Terms::isFalse(rest);) { const Obj* ob = s->mem.get(ids[i]); if (!ob || addr > it->first + objSize[ids[i]]) continue;
+        Node* live = tm.mkAnd(ob->born ? ob->born : tm.T, tm.mkNot(ob->freed)); Node* gi = tm.mkAnd(rest, live);
+        if (!Terms::isFalse(gi)) addAlt(v, gi, ids[i], tm.mkConst(64, addr - it->first));
+        rest = tm.mkAnd(rest, tm.mkNot(live)); }
+      if (!Terms::isFalse(rest)) { uint32_t o; uint64_t off; resolveAddr(addr, o, off); addAlt(v, rest, o, tm.mkConst(64, off)); }   // no live occupant: a dangling address
+      return; } }
+  uint32_t o; uint64_t off; resolveAddr(addr, o, off); addAlt(v, g, o, tm.mkConst(64, off));
 }
 static void collectLeaves(Node* n, Node* g, std::vector<std::pair<Node*, uint64_t>>& out) {
   std::vector<uint64_t> vals; tm.leaves(n, vals);
@@ -194,8 +219,8 @@ static const PtrVal* intToPtr(State& st, Node* n) {
   if (n->cleaf) collectLeaves(n, tm.T, leaves); else leaves = enumerateValues(st, n);
   std::vector<PtrAlt> v;
   for (auto& l : leaves) { uint32_t o; uint64_t off; resolveAddr(l.second, o, off);
-    if (opt.verbose && o == 0 && l.second != 0) { auto it = addrMap.upper_bound(l.second); if (it != addrMap.begin()) { --it; std::cerr << "note: inttoptr of " << l.second << " resolves to no object; nearest below: obj " << it->second << " base " << it->first << " size " << objSize[it->second] << " at " << locOf(curInst) << "\n"; } }
-    addAlt(v, l.first, o, tm.mkConst(64, off)); }
+    if (opt.verbose && o == 0 && l.second != 0) { auto it = addrMap.upper_bound(l.second); if (it != addrMap.begin()) { --it; std::cerr << "note: inttoptr of " << l.second << " resolves to no object; nearest below: obj " << it->second.back() << " base " << it->first << " size " << objSize[it->second.back()] << " at " << locOf(curInst) << "\n"; } }
+    if (opt.reuse) resolveAddrAlts(&st, l.first, l.second, v); else addAlt(v, l.first, o, tm.mkConst(64, off)); }
   return mkPtrV(v);
 }
 static Node* ptrCmpEq(const PtrVal* a, const PtrVal* b) {
@@ -205,6 +230,7 @@ static Node* ptrCmpEq(const PtrVal* a, const PtrVal* b) {
     Node* e;
     if (x.obj == y.obj) e = tm.mkEq(x.off, y.off);
     else if (x.obj == 0 || y.obj == 0) e = tm.mkEq(altAddr(x), altAddr(y));   // compare with null/int: by address
+    else if (opt.reuse && objBase[x.obj] != 0 && objBase[x.obj] == objBase[y.obj]) e = tm.mkEq(x.off, y.off);   // a released object and its successor at the same address
     else e = tm.F;                                                              // distinct objects (one-past aliasing ignored)
     r = tm.mkOr(r, tm.mkAnd(tm.mkAnd(x.g, y.g), e));
   }
@@ -240,7 +266,7 @@ static vs::Value mergeValue(Node* c, const vs::Value& a, const vs::Value& b) {
     const vs::Value& iv = a.k == vs::Value::INT ? a : b;
     if (iv.n->w == 64 && iv.n->cleaf) {
       std::vector<std::pair<Node*, uint64_t>> leaves; collectLeaves(iv.n, tm.T, leaves); std::vector<PtrAlt> alts;
-      for (auto& l : leaves) { uint32_t o; uint64_t off; resolveAddr(l.second, o, off); addAlt(alts, l.first, o, tm.mkConst(64, off)); }
+      for (auto& l : leaves) { if (opt.reuse) { resolveAddrAlts(g_curState, l.first, l.second, alts); continue; } uint32_t o; uint64_t off; resolveAddr(l.second, o, off); addAlt(alts, l.first, o, tm.mkConst(64, off)); }
       const PtrVal* ip = mkPtrV(alts);
       return vs::Value::P(a.k == vs::Value::INT ? mergePtr(c, ip, b.p) : mergePtr(c, a.p, ip));
     }
@@ -345,13 +371,20 @@ static void checkUninitUse(State& st, Node* v, const char* what) {
 
 // ------------------------------------------------------------------------------------------------ memory
 static std::map<uint32_t, std::string> objWhere;
+static uint64_t sizeClass(uint64_t size) { uint64_t c = (size + 8 + 15) & ~15ULL; return c < 32 ? 32 : c; }   // glibc chunk size of a request
+static bool liveIn(const State* s, uint32_t id) { const Obj* o = s->mem.get(id); return o && Terms::isFalse(o->freed); }
 static uint32_t newObject(State& st, uint64_t size, ObjKind kind, const char* name) {
   if (nextObj >= PMap::MAXID) inconclusive("object id space exhausted");
   uint32_t id = nextObj++;
-  auto o = std::make_shared<Obj>(); o->id = id; o->size = size; o->kind = kind; o->readonly = false; o->freed = tm.F; o->fn = nullptr; o->name = name; o->allocSite = 9;
-  nextAddr = (nextAddr + 15) & ~15ULL; o->base = nextAddr; nextAddr += (size ? size : 1) + 16;
+  auto o = std::make_shared<Obj>(); o->id = id; o->size = size; o->kind = kind; o->readonly = false; o->freed = tm.F; o->born = st.pc ? st.pc : tm.T; o->fn = nullptr; o->name = name; o->allocSite = 9;
+  bool reused = false;
+  if (opt.reuse && kind == OK_HEAP && st.fl) {     // LIFO reuse of an address released on this path (same size class)
+    auto it = st.fl->find(sizeClass(size));
+    if (it != st.fl->end() && it->second) { o->base = it->second->addr; auto nl = std::make_shared<FreeLists>(*st.fl); (*nl)[it->first] = it->second->next; st.fl = nl; reused = true; ++stats.reusedAddrs; }
+  }
+  if (!reused) { nextAddr = (nextAddr + 15) & ~15ULL; o->base = nextAddr; nextAddr += (opt.reuse && kind == OK_HEAP ? sizeClass(size) : (size ? size : 1)) + 16; }
   if (objBase.size() <= id) { objBase.resize(id + 1024, 0); objSize.resize(id + 1024, 0); }
-  objBase[id] = o->base; objSize[id] = size; addrMap[o->base] = id;
+  objBase[id] = o->base; objSize[id] = size; addrMap[o->base].push_back(id);
   st.mem.set(id, o); ++stats.allocs;
   if (opt.verbose && kind == OK_HEAP) { std::string w = locOf(curInst); for (size_t i = callStack.size(); i-- > 0 && i + 4 > callStack.size();) w += " < " + demangle(callStack[i]).substr(0, 60); objWhere[id] = w; }
   return id;
